@@ -920,6 +920,15 @@ fn lazy_accept_probe(ctx: &mut Ctx, searcher: &Searcher, kind: &Kind, rng_seed: 
             let ts: Vec<String> = (0..ncomp).map(|i| rank(*t, i).to_string()).collect();
             let model = ctx.model.ask(&format!("C06 lazyacc {shape} {} {}", ks.join(","), ts.join(",")));
             ctx.report.count("lazy-accept-vs-model");
+            // the same through the modelled comparators of order.rs on the optional keys themselves
+            let raw = |doc: DocId| -> String { (0..ncomp).map(|i| match cols[c[i] as usize].first(doc) { None => "n".to_string(), Some(v) => v.to_string() }).collect::<Vec<_>>().join(",") };
+            let ascs: String = (0..ncomp).map(|i| if a[i] { '1' } else { '0' }).collect();
+            let model2 = ctx.model.ask(&format!("C06 lazyacc2 {shape} {ascs} {} {}", raw(*d), raw(*t)));
+            ctx.report.count("lazy-accept-vs-comparator-model");
+            if model2 != *r {
+                ctx.report.violation("model", "C06:lazy-accept-comparator-model-mismatch", format!("accept_sort_key_lazy of {} on segment {ord}: document {d} ({}) against the key of document {t} ({}) as threshold: real {r}, model with the order.rs comparators {model2}", kind.name(), raw(*d), raw(*t)),
+                    json!({"kind": "lazy", "collector": kind_to_json(kind), "segment": ord, "doc": d, "threshold_doc": t}));
+            }
             ctx.report.count(&format!("lazy-accept:{r}"));
             if model != *r {
                 ctx.report.violation("model", "C06:lazy-accept-model-mismatch", format!("accept_sort_key_lazy of {} on segment {ord}: document {d} against the key of document {t} as threshold: real {r}, model {model} (component ranks {ks:?} vs {ts:?})", kind.name()),
